@@ -51,6 +51,7 @@ def step (_ : Unit) (ts : List String) : Unit × String :=
     | ["b64decn", h, n] => match unhex h, n.toNat? with
       | some d, some k => if k ≤ d.length then lenHex (Codec.decodeBase64 (d.take k)) else "bad-op"
       | _, _ => "bad-op"
+    | ["sha1g", _, _, _] => "ok"   -- pseudo-random content of the given length: as `sha1r`
     | ["sha1r", _, _, _] => "ok"   -- the digest given on the line is python hashlib's; `sha1_eq_standard` says the code must produce it
     | ["b64ex", a, l] => match unhex a, l.toNat? with
       | some al, some L => if al.isEmpty || L > 10 then "bad-op" else b64ex al.toArray L
